@@ -53,7 +53,7 @@ type eqCheck struct {
 func newEqCheck(r *Run, name, family string, e *sym.Ctx, rb *ref.B) *eqCheck {
 	q := &eqCheck{r: r, name: name, family: family, e: e, rb: rb, rounds: 3, seed: r.Seed,
 		top: map[*sym.Term]bool{}, cutRef: map[*sym.Term]*ref.N{}, cutImpl: map[*ref.N]*sym.Term{}, ipoly: map[*sym.Term]poly.Poly{}, rpoly: map[*ref.N]poly.Poly{}, byID: map[int]*sym.Term{}}
-	for i := 0; i < q.rounds; i++ {
+	for i := 0; i < q.rounds+edgeRounds; i++ {
 		q.ival = append(q.ival, map[*sym.Term]*big.Int{})
 		q.rval = append(q.rval, map[*ref.N]*big.Int{})
 	}
@@ -62,7 +62,25 @@ func newEqCheck(r *Run, name, family string, e *sym.Ctx, rb *ref.B) *eqCheck {
 
 // ---- sampling --------------------------------------------------------------------------------
 
+// rounds >= q.rounds are "edge" rounds: every atom is 0, 1, its maximum or random; they are used
+// only to search for disagreements, never for candidate matching.
+const edgeRounds = 6
+
 func (q *eqCheck) envVal(round int, a *sym.Term) *big.Int {
+	if round >= q.rounds {
+		h := sha256.Sum256([]byte(fmt.Sprintf("edge|%d|%d|%s", q.seed, round, a.Name)))
+		switch h[0] % 8 {
+		case 0, 1, 2:
+			return big.NewInt(0)
+		case 3:
+			if a.Hi.Sign() > 0 {
+				return big.NewInt(1)
+			}
+			return big.NewInt(0)
+		case 4:
+			return new(big.Int).Set(a.Hi)
+		}
+	}
 	h := sha256.New()
 	var buf [8]byte
 	binary.LittleEndian.PutUint64(buf[:], uint64(q.seed))
@@ -696,7 +714,7 @@ func (q *eqCheck) output(label string, t *sym.Term, n *ref.N) (ok bool, diffRoun
 	if q.equal("out:"+label, t, n) {
 		return true, -1
 	}
-	for i := 0; i < q.rounds; i++ {
+	for i := 0; i < q.rounds+edgeRounds; i++ {
 		m := q.modOf(false)
 		a := new(big.Int).Mod(q.implEval(i, t), m)
 		b := q.refEval(i, n)
@@ -782,3 +800,95 @@ func (q *eqCheck) sweepTerms(roots []*sym.Term) {
 type polyT = poly.Poly
 
 func polySub(a, b poly.Poly) poly.Poly { return poly.Sub(a, b) }
+
+// refExact prints reference nodes with their exact GF(p) / F_r semantics (for direct
+// counterexample queries against the contract-level implementation encoding). Variables print as
+// the implementation atom they are bound to; inverses as invGL, as on the implementation side.
+type refExact struct {
+	sb    *strings.Builder
+	names map[*ref.N]string
+	ufs   map[string]bool
+	atom  func(*sym.Term) string
+}
+
+func (x *refExact) ref(n *ref.N) string {
+	if s, ok := x.names[n]; ok {
+		return s
+	}
+	m := P
+	if n.BigMod {
+		m = R
+	}
+	var s string
+	switch n.Op {
+	case ref.OConst:
+		s = n.K.String()
+	case ref.OVar:
+		s = x.atom(n.V.(*sym.Term))
+		if !n.BigMod {
+			nm := fmt.Sprintf("rx%d", n.ID)
+			fmt.Fprintf(x.sb, "(define-fun %s () Int (mod %s %s))\n", nm, s, P)
+			s = nm
+		}
+	case ref.OAdd, ref.OSub, ref.OMul:
+		a, b := x.ref(n.A), x.ref(n.B)
+		op := map[ref.Op]string{ref.OAdd: "+", ref.OSub: "-", ref.OMul: "*"}[n.Op]
+		s = fmt.Sprintf("rx%d", n.ID)
+		fmt.Fprintf(x.sb, "(define-fun %s () Int (mod (%s %s %s) %s))\n", s, op, a, b, m)
+	case ref.OInv:
+		a := x.ref(n.A)
+		if !x.ufs["invGL"] {
+			x.ufs["invGL"] = true
+			x.sb.WriteString("(declare-fun invGL (Int) Int)\n")
+		}
+		s = fmt.Sprintf("rx%d", n.ID)
+		fmt.Fprintf(x.sb, "(define-fun %s () Int (invGL %s))\n", s, a)
+	case ref.OIsZero:
+		a := x.ref(n.A)
+		s = fmt.Sprintf("rx%d", n.ID)
+		fmt.Fprintf(x.sb, "(define-fun %s () Int (ite (= %s 0) 1 0))\n", s, a)
+	case ref.OIte:
+		c, a, b := x.ref(n.A), x.ref(n.B), x.ref(n.C)
+		s = fmt.Sprintf("rx%d", n.ID)
+		fmt.Fprintf(x.sb, "(define-fun %s () Int (ite (= %s 1) %s %s))\n", s, c, a, b)
+	case ref.OUF:
+		fn := fmt.Sprintf("%s_%d", n.Name, n.Idx)
+		if !x.ufs[fn] {
+			x.ufs[fn] = true
+			fmt.Fprintf(x.sb, "(declare-fun %s (%s) Int)\n", fn, strings.TrimSpace(strings.Repeat("Int ", len(n.Args))))
+		}
+		parts := make([]string, len(n.Args))
+		for i, a := range n.Args {
+			parts[i] = x.ref(a)
+		}
+		s = fmt.Sprintf("rx%d", n.ID)
+		fmt.Fprintf(x.sb, "(define-fun %s () Int (%s %s))\n", s, fn, strings.Join(parts, " "))
+	}
+	x.names[n] = s
+	return s
+}
+
+// directQuery builds "exists inputs: impl output != ref output" on the exact encodings (expected
+// unsat). Only sensible for small functions; used when sweeping finds neither a proof nor a
+// differing sample point.
+func (q *eqCheck) directQuery(t *sym.Term, n *ref.N) (script string, atoms []*sym.Term) {
+	em := sym.NewEmitter()
+	em.DefMode = true
+	em.ModWrap = true
+	on := em.Ref(t)
+	var sb strings.Builder
+	rx := &refExact{sb: &sb, names: map[*ref.N]string{}, ufs: map[string]bool{}, atom: func(a *sym.Term) string { return em.Ref(a) }}
+	// the reference may mention atoms the implementation output does not depend on
+	rn := rx.ref(n)
+	m := P
+	if q.bigMod {
+		m = R
+	}
+	script = em.String() + sb.String() + fmt.Sprintf("(assert (not (= (mod %s %s) (mod %s %s))))", on, m, rn, m)
+	// invGL on both sides is the same symbol; declare once
+	if strings.Count(script, "(declare-fun invGL") > 1 {
+		i := strings.LastIndex(script, "(declare-fun invGL (Int) Int)\n")
+		script = script[:i] + script[i+len("(declare-fun invGL (Int) Int)\n"):]
+	}
+	return script, em.AtomsSeen
+}
